@@ -40,7 +40,7 @@ func preds(self int) []predicate {
 
 func TestC05AcceptAndContinuity(t *testing.T) {
 	const sub = "C05.accept_and_continuity"
-	ev.Rule(sub, "rapid: channel A wired to channel B and to an intruding channel C with another key (A's output reaches both, theirs reach A); acceptance predicates per side from {all, none, only one key}; initiators from {A, B, both, C} with generated start offsets; the intruder starts before/during or after establishment; optional short rekey interval followed by a second round. Real timers, handshake backoff 5 ms, observation window 300 ms per blocked call. Oracle: a channel never returns nil from Send, never delivers data, never emits a data-range ciphertext and never reports a RemoteKey for a key its predicate rejects; RemoteKey never changes once set; mutually accepting pairs (with no competing acceptable intruder) establish and still exchange tagged messages both ways after the intrusion; an intruder is refused once the channel is bound to another key. non-trivial = rejecting predicate on an initiating or responding side, or an intrusion after establishment; distinct by (predicates, initiators, timing class)")
+	ev.Rule(sub, "rapid: channel A wired to channel B and to an intruding channel C with another key (A's output reaches both, theirs reach A); acceptance predicates per side from {all, none, only one key}; initiators from {A, B, both, C} with generated start offsets; the intruder starts before/during or after establishment; optional short rekey interval followed by a second round; optionally the wire loses every RespDone (handshakes complete through data); optionally a short keep-alive with an idle period before the intruder arrives (the established session is retired for idleness, the pinned key must survive). Real timers, handshake backoff 5 ms, observation window 300 ms per blocked call. Oracle: a channel never returns nil from Send, never delivers data, never emits a data-range ciphertext and never reports a RemoteKey for a key its predicate rejects; RemoteKey never changes once set; mutually accepting pairs (with no competing acceptable intruder) establish and still exchange tagged messages both ways after the intrusion; an intruder is refused once the channel is bound to another key. non-trivial = rejecting predicate on an initiating or responding side, or an intrusion after establishment; distinct by (predicates, initiators, timing class)")
 	rapid.Check(t, func(t *rapid.T) {
 		pa := rapid.SampledFrom(preds(kA)).Draw(t, "acceptA")
 		pb := rapid.SampledFrom(preds(kB)).Draw(t, "acceptB")
@@ -48,19 +48,28 @@ func TestC05AcceptAndContinuity(t *testing.T) {
 		initiators := rapid.SampledFrom([]string{"A", "B", "AB", "A", "B", "AB"}).Draw(t, "initiators")
 		intruder := rapid.SampledFrom([]string{"none", "before", "during", "after", "after"}).Draw(t, "intruder")
 		rekey := rapid.Bool().Draw(t, "shortRekey")
+		loseRespDone := rapid.IntRange(0, 3).Draw(t, "loseRespDone") == 0 // the wire loses every RespDone: handshakes complete through data
+		idleExpiry := rapid.IntRange(0, 3).Draw(t, "idleExpiry") == 0     // short keep-alive and an idle period before the intruder arrives
 		offA := rapid.IntRange(0, 6).Draw(t, "offsetA")
 		offB := rapid.IntRange(0, 6).Draw(t, "offsetB")
 		cfg := chanCfg{backoff: 5 * time.Millisecond, keepAlive: 5 * time.Second, rekey: time.Hour, reject: 30 * time.Second}
 		if rekey {
 			cfg.rekey = 120 * time.Millisecond
 		}
-		desc := fmt.Sprintf("A:%s B:%s C:%s init=%s intruder=%s rekey=%v off=%d/%d", pa.name, pb.name, pc.name, initiators, intruder, rekey, offA, offB)
+		if idleExpiry {
+			cfg.keepAlive = 80 * time.Millisecond
+			cfg.rekey = time.Hour
+		}
+		desc := fmt.Sprintf("A:%s B:%s C:%s init=%s intruder=%s rekey=%v off=%d/%d loseRespDone=%v idleExpiry=%v", pa.name, pb.name, pc.name, initiators, intruder, rekey, offA, offB, loseRespDone, idleExpiry)
 		ev.Eval(sub)
 		nt := newNet()
 		a := nt.addNode("A", kA, pa.fn, cfg)
 		b := nt.addNode("B", kB, pb.fn, cfg)
 		c := nt.addNode("C", kC, pc.fn, cfg)
 		defer nt.close()
+		if loseRespDone {
+			nt.drop = func(_ *node, data []byte) bool { return counterOf(data) == 3 }
+		}
 		nt.link(a, b)
 		nt.link(b, a)
 		if intruder == "before" || intruder == "during" {
@@ -97,9 +106,17 @@ func TestC05AcceptAndContinuity(t *testing.T) {
 		}
 		wg.Wait()
 		if intruder == "after" {
+			if idleExpiry {
+				// the established session goes idle past the keep-alive timeout; the next Send retires it
+				time.Sleep(200 * time.Millisecond)
+			}
 			nt.link(a, c)
 			nt.link(c, a)
 			start(c, "intrude", 0)
+			if idleExpiry {
+				start(a, "after-idle", 2*time.Millisecond)
+				start(b, "after-idle", 4*time.Millisecond)
+			}
 			wg.Wait()
 		}
 		if rekey {
@@ -140,7 +157,7 @@ func TestC05AcceptAndContinuity(t *testing.T) {
 		// InitHello) when it is willing to talk to A; an engaged intruder may win races, so liveness of
 		// the A-B handshake is only required when it cannot engage or arrives after establishment.
 		cCompetes := (intruder == "before" || intruder == "during") && (pa.fn(kC) || (strings.Contains(initiators, "A") && pc.fn(kA)))
-		if abMutual && !cCompetes {
+		if abMutual && !cCompetes && !loseRespDone && !idleExpiry {
 			for name, err := range results {
 				if (strings.HasPrefix(name, "A/") || strings.HasPrefix(name, "B/")) && err != nil {
 					fail("A and B accept each other and nobody competes, yet %s failed: %v", name, err)
@@ -156,7 +173,7 @@ func TestC05AcceptAndContinuity(t *testing.T) {
 		// application data to C - all checked by the per-event oracles in net_test.go.
 		_ = kc2
 		// established pair still works both ways
-		if ka == kB && kb2 == kA {
+		if ka == kB && kb2 == kA && !loseRespDone && !idleExpiry {
 			if err := a.send("after", window); err != nil {
 				fail("established pair: A.Send after the intrusion failed: %v", err)
 			}
